@@ -298,16 +298,23 @@ func (s *SecureChannel) dispatcher() {
 				debug.Printf("uasc %d/%d: recv %T", s.c.ID(), msg.RequestID, msg.body)
 			}
 
+			// HACK
+			// The receive lock must be taken before the handler is popped: once the
+			// handler is gone the request may time out, and open() unlocks when it
+			// returns. Locking afterwards would leave the dispatcher waiting forever.
+			_, isOpen := msg.Response().(*ua.OpenSecureChannelResponse)
+			if isOpen {
+				s.rcvLocker.lock()
+			}
+
 			ch, ok := s.popHandler(msg.RequestID)
 
 			if !ok {
+				if isOpen {
+					s.rcvLocker.unlock()
+				}
 				debug.Printf("uasc %d/%d: no handler for %T", s.c.ID(), msg.RequestID, msg.body)
 				continue
-			}
-
-			// HACK
-			if _, ok := msg.Response().(*ua.OpenSecureChannelResponse); ok {
-				s.rcvLocker.lock()
 			}
 
 			debug.Printf("uasc %d/%d: sending %T to handler", s.c.ID(), msg.RequestID, msg.body)
